@@ -21,6 +21,9 @@ def gen_cases(rng, tier):
         if gi % 4 == 3:
             # a qualified property shape with a target of its own, selected WITHOUT its parent: its siblings still count
             b = EC.base_case(rng, p_focused=1.0, tmpls=[lambda r_, n_, l_: S.tmpl_qualified(r_, n_, l_, easy=True, named_props=True)])
+        elif gi % 4 == 1:
+            # shapes that refer to each other in circles (self-loops, mutual recursion): loading the selected shapes must end
+            b = EC.base_case(rng, p_deact=0.05, sev=False, p_focused=0.0, recursive=True)
         else:
             b = EC.base_case(rng, p_deact=0.05, sev=False)
         b["data"].bind("ex", EX)
